@@ -43,7 +43,7 @@ def _grid(r, c, tier, rnd, eng, kind='cost'):
     out = []
     big = 4 if tier == 'quick' else 5
     base = {'window': None, 'pen': False, 'psi': None, 'step': False, 'md': False, 'keep': True, 'neg': True}
-    fork_ok = r * c <= ((9 if (eng, kind) == ('py', 'cost') else 6) if tier == 'quick' else 12)
+    fork_ok = r * c <= (9 if tier == 'quick' else 12)
     wins = dtwh.windows(r, c)
     psis = dtwh.psi_options(r, c, tier, rnd, nrandom=2)
     if r > 3 or c > 3:
@@ -73,8 +73,6 @@ def tasks(tier, seed):
     for eng, kind in (('py', 'cost'), ('py', 'sq'), ('c', 'sq'), ('c', 'abs')):
         for r in range(1, n + 1):
             for c in range(1, n + 1):
-                if tier == 'quick' and (eng, kind) in (('py', 'sq'), ('c', 'abs')) and (r > 3 or c > 3):
-                    continue
                 rnd = random.Random(seed * 31 + r * 7 + c)
                 grid = _grid(r, c, tier, rnd, eng, kind)
                 chunk, est = [], 0
